@@ -28,7 +28,7 @@ import (
 	"github.com/dolthub/dolt/go/zzverif/vsql"
 )
 
-const c08Rule = "one server, one fresh database per case. Builder session (autocommit, @@dolt_allow_commit_conflicts=1): tables t(pk,c1,c2), u(pk,v), d(pk,n) with 3-6 rows (+ optionally 150/400 bulk rows so trees have two levels), commit; a drawn subset of features: file remote `origin` (push main, later fetch so remotes/origin/main lags; optionally a branch pushed and then deleted locally so only the remote-tracking ref holds it), tags (one optionally on the head of a branch that is deleted afterwards), an early dolt_gc() in the middle of the history (so later garbage sits in the old generation), a deleted branch with two unique commits, in-progress conflicted dolt_merge (optionally over an uncommitted change to a table main did not touch), dolt_cherry_pick, dolt_revert, interactive dolt_rebase stopped at a conflict (plan optionally edited: squash / reword / drop), 1-2 stashes, staged != working on main, an untracked table. Then 0-3 writer sessions (each on its own branch, incl. conflicted ones) open a transaction and insert 1-2 fresh rows; the GC statement (mode default | --full | --shallow, archive level unset | 0 | 1) runs from a fresh session, from the builder session, or from a session that itself has an open transaction with a pending insert; the writers run 0-2 more inserts and finish with COMMIT or dolt_commit('-am'). Oracle: vsql.Fingerprint (+ the dolt_rebase plan) before GC == after GC; closure walk (types.WalkAddrsFromNomsValue from every dataset head over the server's chunk store) finds every address, after GC, after the writers committed and after a second GC (mode drawn again); after the writers finish every fingerprint line of a branch nobody wrote is unchanged and the written branches contain exactly the old rows plus the written ones; second GC leaves the fingerprint unchanged; finally every in-progress operation is either aborted (working and staged tables of that branch must equal the snapshot taken before the operation started, when no writer touched the branch), or resolved and committed/continued (must succeed), and the final fingerprint has no unreadable part. Non-trivial (DESIGN): at least 3 of {stash, in-progress merge/cherry-pick/revert, in-progress rebase, staged != working, tag, remote ref} and garbage was really collected (the .dolt directory shrank or the deleted branch's head commit is no longer in the store); distinct by feature set + modes + writer plan."
+const c08Rule = "one server, one fresh database per case. Builder session (autocommit, @@dolt_allow_commit_conflicts=1): tables t(pk,c1,c2), u(pk,v), d(pk,n) with 3-6 rows (+ optionally 150/400 bulk rows so trees have two levels), commit; a drawn subset of features: file remote `origin` (push main, later fetch so remotes/origin/main lags; optionally a branch pushed and then deleted locally so only the remote-tracking ref holds it), tags (one optionally on the head of a branch that is deleted afterwards), an early dolt_gc() in the middle of the history (so later garbage sits in the old generation), a deleted branch with two unique commits, in-progress conflicted dolt_merge (optionally over an uncommitted change to a table main did not touch), dolt_cherry_pick, dolt_revert, interactive dolt_rebase stopped at a conflict (plan optionally edited: squash / reword / drop), 1-2 stashes, staged != working on main, an untracked table. Then 0-3 writer sessions (each on its own branch, incl. conflicted ones) open a transaction and insert 1-2 fresh rows; the GC statement (mode default | --full | --shallow, archive level unset | 0 | 1) runs from a fresh session (the builder session still connected, or disconnected first), from the builder session, or from a session that itself has an open transaction with a pending insert; the writers run 0-2 more inserts and finish with COMMIT or dolt_commit('-am'). Oracle: vsql.Fingerprint (+ the dolt_rebase plan) before GC == after GC; closure walk (types.WalkAddrsFromNomsValue from every dataset head over the server's chunk store) finds every address, after GC, after the writers committed and after a second GC (mode drawn again); after the writers finish every fingerprint line of a branch nobody wrote is unchanged and the written branches contain exactly the old rows plus the written ones; second GC leaves the fingerprint unchanged; finally every in-progress operation is either aborted (working and staged tables of that branch must equal the snapshot taken before the operation started, when no writer touched the branch), or resolved and committed/continued (must succeed), and the final fingerprint has no unreadable part. Non-trivial (DESIGN): at least 3 of {stash, in-progress merge/cherry-pick/revert, in-progress rebase, staged != working, tag, remote ref} and garbage was really collected (the .dolt directory shrank or the deleted branch's head commit is no longer in the store); distinct by feature set + modes + writer plan."
 
 var c08Assumptions = []string{
 	"online GC uses the session-aware safepoint controller (the default): connections stay usable after dolt_gc, so sessions do not reconnect",
@@ -508,11 +508,16 @@ func c08Run(rt *rapid.T, srv *vsql.Server, admin *vsql.Session, scratch string, 
 	if mode != "--shallow" {
 		level = rapid.SampledFrom([]string{"unset", "0", "1"}).Draw(rt, "archive_level")
 	}
-	caller := rapid.SampledFrom([]string{"fresh", "builder", "open_txn"}).Draw(rt, "gc_caller")
+	caller := rapid.SampledFrom([]string{"fresh", "fresh_builder_gone", "builder", "open_txn"}).Draw(rt, "gc_caller")
 	gcSe := a
 	if caller != "builder" {
 		gcSe = srv.Session(rt, "gc", db)
 		defer gcSe.Close()
+	}
+	if caller == "fresh_builder_gone" {
+		// the session that built the state (and still caches every branch it visited) disconnects first
+		a.Close()
+		c.log = append(c.log, "[a] disconnects")
 	}
 	callerPK := 0
 	if caller == "open_txn" {
